@@ -22,7 +22,7 @@ NET_SAN := -fsanitize=address,bounds,integer-divide-by-zero -fno-sanitize-recove
 NET_REPO_CFLAGS := $(REPO_CFLAGS_COMMON) -O1 -DNDEBUG -fno-inline $(NET_SAN) $(COV) -I$(EX)
 NETB := $(B)/net
 NET_LIB_OBJS := $(patsubst $(REPO)/src/%.c,$(NETB)/lib/%.o,$(LIB_SRCS))
-NET_WRAPS := socket bind ioctl setsockopt close recv sendto read write poll clock_gettime clock_nanosleep sleep timerfd_create timerfd_settime rand exit malloc calloc realloc free getenv secure_getenv
+NET_WRAPS := socket bind ioctl setsockopt close recv sendto read write poll clock_gettime clock_nanosleep sleep timerfd_create timerfd_settime rand exit malloc calloc realloc free getenv secure_getenv isatty
 NET_WRAPFLAGS := $(foreach w,$(NET_WRAPS),-Wl,--wrap=$(w))
 
 # example program -> main symbol
@@ -83,6 +83,10 @@ $(B)/net_sim: $(NETB)/marker_begin.o $(NET_LIB_OBJS) $(NET_EX_OBJS) $(NETB)/exam
 	$(CXX) -no-pie -fsanitize=address,bounds,integer-divide-by-zero $(NET_WRAPFLAGS) -o $@ $(NETB)/marker_begin.o $(NET_LIB_OBJS) $(NET_EX_OBJS) $(NETB)/examples_O0.o $(NETB)/examples_G.o $(NETB)/marker_end.o $(NET_SIM_OBJS) -lm
 
 net: $(B)/net_sim
+# dictionary of the integer literals in the example programs (tools/src_literals.py), compiled into the net engine's generators
+$(B)/src_literals.inc: $(EX_SRCS) $(REPO_HDRS) tools/src_literals.py | dirs
+	python3 tools/src_literals.py $(EX) > $@.tmp && mv $@.tmp $@
+$(NETB)/sim/engines/net/gen.o: $(B)/src_literals.inc
 
 # ---------------------------------------------------------------- call bindings generated from /repo/include
 GEN := $(B)/gen
